@@ -827,13 +827,13 @@ impl Property for C20 {
     }
     fn cases(&self, tier: Tier) -> u64 {
         match tier {
-            Tier::Quick => 400,
+            Tier::Quick => 2_000,
             Tier::Thorough => 60_000,
         }
     }
     fn min_nontrivial(&self, tier: Tier) -> u64 {
         match tier {
-            Tier::Quick => 90,
+            Tier::Quick => 450,
             Tier::Thorough => 13_000,
         }
     }
